@@ -31,6 +31,13 @@ CHECKS["C19"] = ("runtime model comparison: messages produced by the real report
   "The real Reporter renders every (line length 0..3x limit, column 1..len+1) ASCII case (quick: every 3rd length plus all regime boundaries; thorough: all) and tens of thousands of tab / multi-byte / first-last-only-line / long-context / unreadable / shorter-on-disk / 64KB+ cases; each message is parsed and checked: excerpt = source line or ellipsis + contiguous substring + ellipsis within limit+6 containing the reported character, caret offset in characters with tabs mirrored, context lines are the neighbours, degraded inputs give no caret on a wrong line and no panic.",
   "trusts go/token position arithmetic; display limit read from reporting.MaxLineLength; East-Asian wide runes and column len+1 are FREE for caret placement", "DESIGN.md §3 C19")
 
+CHECKS["C08"] = ("runtime monitor: diagnostic set of the real binary under exclude-checks=S (flag / env) vs unrestricted run filtered by a reference hierarchy table",
+  "Programs producing all 16 codes (with scoped @ignore comments for unrelated codes sprinkled in) are run with S = every single token (ALL, 5 categories, 16 codes, 16 junk tokens; upper and lower case), all category pairs and random subsets in random case/spacing, through the flag and the environment variable; the resulting set must equal the unrestricted set filtered by the reference table.",
+  "trusts the harness' reference code table (from the book) and set normalisation", "DESIGN.md §3 C08")
+CHECKS["C18"] = ("runtime monitor: fresh process per configuration on a probe module with planted violations; visible set vs reference resolution flag > env > default",
+  "A probe module with planted violations (regular file: one per category; _test.go file; file and directory named after pool tokens; file name containing 'testdata') is analysed by one fresh process per configuration: grid {flag absent, empty, value} x {env unset, empty, value} per option over pools of boolean and list spellings, joint random combinations and fuzzed environment strings; the visible plants must equal the reference resolution and parse rules, every process must end normally, and in text mode the exit status must be non-zero exactly when something is printed.",
+  "boolean FLAG values restricted to what the flag package accepts; GOGREEMENT_ENV_ONLY unset; reference rules written from the property statement", "DESIGN.md §3 C18")
+
 PENDING_REASON = "monitor for this property is still under construction in this round (designed in DESIGN.md §3; not claimed until its check is silent on the unchanged tree)"
 def main():
     checks = []
